@@ -45,7 +45,11 @@ type dialer struct {
 }
 
 func (d *dialer) Dial() (_ transport.Pipe, err error) {
-	conn, err := d.d.Dial("tcp", d.addr)
+	// SetOption may change the keep-alive setting while we dial.
+	d.lock.Lock()
+	nd := d.d
+	d.lock.Unlock()
+	conn, err := nd.Dial("tcp", d.addr)
 	if err != nil {
 		return nil, err
 	}
